@@ -24,9 +24,25 @@ PREFILTER = vjudge.prefilter
 def gen(rng, tier, n):
     ops = []
     while len(ops) < n:
-        c = gs.Ctx(rng, "2020", depth=3)
-        doc = gs.gen_document(c)
+        d7 = rng.random() < 0.25
+        c = gs.Ctx(rng, "7" if d7 else "2020", depth=3)
+        doc = gs.gen_document(c, rng.choice(gs.D7_URIS) if d7 else None)
         if not isinstance(doc, Obj):
+            continue
+        if d7:
+            # draft-07 shapes of the same structures: a fragment-only $id (a plain-name anchor there), definitions, dependencies
+            doc.set("$id", "http://x.test/c13/root.json")
+            defs = doc.get("definitions") if isinstance(doc.get("definitions"), Obj) else Obj()
+            defs.set("fr", Obj([("$id", "#fr"), ("type", "number")]))
+            defs.set("e", Obj([("$id", "sub/e.json"), ("minimum", Num("0"))]))
+            doc.set("definitions", defs)
+            doc.set("patternProperties", Obj([("^a", Obj([("type", "number")])), ("b$", True)]))
+            doc.set("required", ["a"])
+            doc.set("properties", Obj([("a", Obj([("default", Num("1")), ("$ref", "#fr")])), ("d", Obj([("uniqueItems", True)])),
+                                       ("x-%d" % len(ops), Obj([("title", "t"), ("x-unknown", [Num("1")])]))]))
+            doc.set("x-root-%d" % (len(ops) % 3), Obj([("k", "v")]))
+            insts = [gs.gen_instance(rng) for _ in range(6)] + [Obj([("a", Num("1")), ("d", [Num("1"), Num("1.0")])])]
+            ops.append({"op": "concurrent", "args": {"schema": doc, "insts": insts}, "meta": {}})
             continue
         # make sure the cached / lazily initialised structures are present
         doc.set("patternProperties", Obj([("^a", Obj([("type", "number")])), ("b$", True)]))
@@ -34,6 +50,8 @@ def gen(rng, tier, n):
         doc.set("properties", Obj([("a", Obj([("default", Num("1")), ("pattern", "^x")])), ("d", Obj([("uniqueItems", True)]))]))
         doc.set("unevaluatedProperties", Obj([("$dynamicRef", "#n")]))
         doc.set("$dynamicAnchor", "n") if doc.get("$dynamicAnchor") is None else None
+        if rng.random() < 0.6:
+            doc.set("x-root-%d" % (len(ops) % 3), Obj([("k", "v")]))     # unknown keywords: the struct+map splice of Marshal
         insts = [gs.gen_instance(rng) for _ in range(6)] + [Obj([("a", "x1"), ("d", [Num("1"), Num("1.0")])])]
         ops.append({"op": "concurrent", "args": {"schema": doc, "insts": insts}, "meta": {}})
     return ops
